@@ -88,6 +88,16 @@ def generate():
         if _src(ret) != "return v":
             raise Unsupported("_format_value: return")
 
+        # ---- _format_relevant_values: a value is laid out on the lines of value.split("\n")
+        frv = find_func(tree, "_format_relevant_values", CLS)
+        splits = [n for n in ast.walk(frv) if isinstance(n, ast.Assign) and _src(n.targets[0]) == "value_lines"]
+        if len(splits) != 1 or not (isinstance(splits[0].value, ast.Call) and _src(splits[0].value.func) == "value.split"
+                                    and len(splits[0].value.args) == 1 and isinstance(splits[0].value.args[0], ast.Constant)
+                                    and isinstance(splits[0].value.args[0].value, str)
+                                    and len(splits[0].value.args[0].value) == 1):
+            raise Unsupported("_format_relevant_values: value_lines is not value.split(<one character>)")
+        line_sep = splits[0].value.args[0].value
+
         # ---- _format_list: folding threshold
         fl = find_func(tree, "_format_list", CLS)
         thr, subs = set(), set()
@@ -211,6 +221,8 @@ def generate():
         body += "def maxLength : Nat := %d\n" % max_length
         body += "/-- `v[: max_length - k] + \"...\"` -/\ndef cut : Nat := %d\n" % cut_n
         body += "def ellipsis : Py.Str := %s\n" % lean_chars(ellipsis)
+        body += "/-- `value_lines = value.split(…)` in `_format_relevant_values` -/\n"
+        body += "def valueLineSep : Char := Char.ofNat %d\n" % ord(line_sep)
         body += "/-- the truncation test `len(v) > max_length` -/\n"
         body += "def tooLong (len maxLen : Nat) : Bool := decide (len > maxLen)\n"
         body += "/-- `repr(v)` is inside `try: … except %s:` -/\n" % (guard or "<bare>")
